@@ -57,7 +57,7 @@ def pickTones {F} (which : String) (d : DevFn F) : List Int :=
   if which = "x" then d.xTones else if which = "y" then d.yTones else []
 
 /-- one copy of `gen`, for the spec `sp` it ends up using -/
-def genCore {F S V} (shape : Shape) (trace : S → F → List V → Option Path)
+def genCore {F S V : Type} (shape : Shape) (trace : S → F → List V → Option Path)
     (sp : S) (task : TaskVal F) (inputs : List V) (kwargs : List String) : Except GenErr PathVal :=
   match task with
   | .other => .error .badTask
@@ -77,14 +77,14 @@ def genCore {F S V} (shape : Shape) (trace : S → F → List V → Option Path)
         | some p' => .ok ⟨pickTones shape.xTonesFrom d, pickTones shape.yTonesFrom d, p'⟩
 
 /-- `PathInterpreter.gen` (key `main`): the spec recorded on the statement -/
-def genMain {F S V} (trace : S → F → List V → Option Path) (stmtSpec : Option S)
+def genMain {F S V : Type} (trace : S → F → List V → Option Path) (stmtSpec : Option S)
     (task : TaskVal F) (inputs : List V) (kwargs : List String) : Except GenErr PathVal :=
   match stmtSpec with
   | none => .error .noSpec
   | some sp => genCore Gen.GenRoutes.main trace sp task inputs kwargs
 
 /-- `SpecPathInterpreter.gen` (key `spec.interp`): the interpreter's spec -/
-def genSpec {F S V} (trace : S → F → List V → Option Path) (interpSpec : S)
+def genSpec {F S V : Type} (trace : S → F → List V → Option Path) (interpSpec : S)
     (task : TaskVal F) (inputs : List V) (kwargs : List String) : Except GenErr PathVal :=
   genCore Gen.GenRoutes.spec trace interpSpec task inputs kwargs
 
@@ -97,7 +97,7 @@ deriving Repr, DecidableEq
 
 /-- `ConstProp.gen` (key `constprop`): folds only when spec, task and all inputs are
 constant (`none` = not a compile-time constant) -/
-def genConst {F S V} (trace : S → F → List V → Option Path) (stmtSpec : Option S)
+def genConst {F S V : Type} (trace : S → F → List V → Option Path) (stmtSpec : Option S)
     (task : Option (TaskVal F)) (inputs : List (Option V)) (kwargs : List String) : Folded :=
   match stmtSpec, task with
   | none, _ => .unfolded
@@ -112,7 +112,7 @@ def genConst {F S V} (trace : S → F → List V → Option Path) (stmtSpec : Op
       | .error e => .raised e
 
 /-- the specification: the one path a device call denotes -/
-def genSpecification {F S V} (trace : S → F → List V → Option Path) (sp : S)
+def genSpecification {F S V : Type} (trace : S → F → List V → Option Path) (sp : S)
     (task : TaskVal F) (boundArgs : List V) : Option PathVal :=
   match task with
   | .fwd d => (trace sp d.moveFn boundArgs).map fun p => ⟨d.xTones, d.yTones, p⟩
